@@ -308,29 +308,27 @@ fn clean_up(line: &str) -> &str {
 /// For example, 4K => 4096, 1M => 1048576.
 /// If no letter is provided at the end, assumes the number to be in bytes.
 fn parse_size(size: &str) -> Result<i64, ()> {
-    if size.is_empty() {
-        // Empty string
+    // The unit, if there is one, is the last character of the value
+    let last_char = size.chars().last().ok_or(())?;
 
-        Err(())
-    } else if size.len() == 1 {
-        // One character so cannot possibly be valid
-
-        size.parse::<i64>().map_err(|_| ())
-    } else {
-        let last_char = size.chars().last().unwrap().to_ascii_uppercase();
-        let number: i64 = size[0..size.len() - 1].parse().map_err(|_| ())?;
-
-        match last_char {
-            'K' => Ok(number * 1024),
-            'M' => Ok(number * 1024 * 1024),
-            'G' => Ok(number * 1024 * 1024 * 1024),
-            '0'..='9' => size.parse::<i64>().map_err(|_| ()),
-            _ => Err(()),
-        }
+    if last_char.is_ascii_digit() {
+        return size.parse::<i64>().map_err(|_| ());
     }
+
+    let number: i64 = size[0..size.len() - last_char.len_utf8()]
+        .parse()
+        .map_err(|_| ())?;
+
+    let multiplier: i64 = match last_char.to_ascii_uppercase() {
+        'K' => 1024,
+        'M' => 1024 * 1024,
+        'G' => 1024 * 1024 * 1024,
+        _ => return Err(()),
+    };
+
+    number.checked_mul(multiplier).ok_or(())
 }
 
-/// Asserts a condition, returning a `Result` rather than panicking like the `assert!` macro.
 fn quiet_assert<T>(
     condition: bool,
     message: &'static str,
